@@ -397,6 +397,7 @@ Let r := resolve_flat h.
 Let r' := resolve_flat h'.
 Definition Fx (w : Z) : Prop := False.
 Definition Oldx (x : name) : Prop := exists n, find h x = Some n /\ is_region n = false.
+Definition children (n : node) : list name := match n_kind n with KRegion _ _ _ ch _ _ => ch | _ => [] end.
 
 Lemma reparent_name n : n_name (reparent rname blocks n) = n_name n.
 Proof. unfold reparent. destruct (zmem (n_name n) blocks); [destruct (n_kind n)|]; reflexivity. Qed.
@@ -613,6 +614,66 @@ Proof.
   - exists b. split; [exact Hb|]. unfold is_region. rewrite Hk. reflexivity.
   - eauto.
   - exact He.
+Qed.
+
+(* ---------- property C04: the new region is consistent ---------- *)
+Theorem region_consistent : In hd blocks -> In ex blocks -> ex <> lvl ->
+  exists nr nxe nl',
+    find h' rname = Some nr /\ n_parent nr = lvl /\
+    n_kind nr = KRegion rk hd ex (zsort blocks) lvl true /\       (* recorded parent = the level that holds it *)
+    In hd (zsort blocks) /\ In ex (zsort blocks) /\               (* header and exiting block lie inside *)
+    find h' ex = Some nxe /\ n_parent nxe = rname /\
+    n_jt nr = jump_targets nxe /\                                 (* its targets are its exiting block's *)
+    find h' lvl = Some nl' /\ In rname (children nl') /\          (* the level lists it *)
+    (forall x n, In x blocks -> x <> lvl -> find h x = Some n ->
+       exists n', find h' x = Some n' /\ n_parent n' = rname).     (* the wrapped blocks point to it *)
+Proof.
+  intros Hhdb Hexb Hexl. destruct parts as [h1 [nx [nl [HI [Hex [Hl Eh']]]]]].
+  destruct HI as [Hlen [Hnone Hsome]].
+  set (nl' := match n_kind nl with
+              | KRegion rkl hdl exl ch pd ok =>
+                mkNode (n_name nl) (n_parent nl) (n_jt nl) (n_be nl)
+                       (KRegion rkl (if Z.eqb hd hdl then rname else hdl) (if Z.eqb ex exl then rname else exl)
+                                (filter (fun y => negb (zmem y blocks)) ch ++ [rname]) pd ok)
+              | _ => nl end) in *.
+  assert (Hnl'name : n_name nl' = lvl) by (unfold nl'; destruct (n_kind nl); cbn [n_name]; exact (find_name h1 lvl nl Hl)).
+  assert (Hpres : find (map (reparent rname blocks) h1) (n_name nl') <> None).
+  { rewrite find_map_same by apply reparent_name. rewrite Hnl'name, Hl. discriminate. }
+  assert (Hrl : rname <> lvl) by (intros E0; destruct Hlvl as [nl0 [A _]]; rewrite <- E0 in A; congruence).
+  assert (Hfind : forall x, x <> lvl -> x <> rname ->
+                            find h' x = option_map (reparent rname blocks) (find h1 x)).
+  { intros x A B. rewrite Eh', find_app_none, find_hset by exact Hpres. rewrite Hnl'name.
+    destruct (Z.eqb_spec x lvl); [contradiction|]. rewrite find_map_same by apply reparent_name.
+    destruct (find h1 x); [reflexivity|]. cbn [option_map find n_name]. destruct (Z.eqb_spec rname x); [congruence|reflexivity]. }
+  assert (Hexr : ex <> rname).
+  { intros ->. rewrite (Hnone rname Hfresh) in Hex. discriminate. }
+  destruct rname_after as [nx0 Hrn].
+  (* nx0 is the same nx (parts is deterministic) *)
+  assert (Hrn' : find h' rname = Some (mkNode rname lvl (jump_targets nx) [] (KRegion rk hd ex (zsort blocks) lvl true))).
+  { rewrite Eh', find_app_none, find_hset by exact Hpres. rewrite Hnl'name.
+    destruct (Z.eqb_spec rname lvl); [contradiction|]. rewrite find_map_same by apply reparent_name.
+    rewrite (Hnone rname Hfresh). cbn [option_map find n_name]. rewrite Z.eqb_refl. reflexivity. }
+  eexists. exists (reparent rname blocks nx), nl'. split; [exact Hrn'|]. split; [reflexivity|]. split; [reflexivity|].
+  split; [apply zsort_In; exact Hhdb|]. split; [apply zsort_In; exact Hexb|].
+  split; [rewrite (Hfind ex Hexl Hexr), Hex; reflexivity|].
+  assert (Hnxn : n_name nx = ex) by exact (find_name h1 ex nx Hex).
+  split.
+  { unfold reparent. rewrite Hnxn. assert (zmem ex blocks = true) as -> by (apply zmem_In; exact Hexb).
+    destruct (n_kind nx); reflexivity. }
+  split.
+  { cbn [n_jt]. unfold reparent, jump_targets. destruct (zmem (n_name nx) blocks); [destruct (n_kind nx)|]; reflexivity. }
+  split.
+  { rewrite Eh', find_app_none, find_hset by exact Hpres. rewrite Hnl'name, Z.eqb_refl. reflexivity. }
+  split.
+  { destruct Hlvl as [nl0 [Hnl0 Hrl0]]. destruct (Hsome lvl nl0 Hnl0) as [nl1 [Hnl1 R]]. rewrite Hl in Hnl1. injection Hnl1 as <-.
+    pose proof (NodeRel_region nl0 nl R) as Hreg. rewrite Hrl0 in Hreg.
+    unfold nl'. unfold is_region in Hreg. destruct (n_kind nl); try discriminate.
+    unfold children. cbn. apply in_or_app. right. left. reflexivity. }
+  intros x n Hxb Hxl Hn. destruct (Hsome x n Hn) as [n1 [Hn1 _]].
+  assert (Hxr : x <> rname) by (intros ->; congruence).
+  exists (reparent rname blocks n1). split; [rewrite (Hfind x Hxl Hxr), Hn1; reflexivity|].
+  unfold reparent. rewrite (find_name h1 x n1 Hn1). assert (zmem x blocks = true) as -> by (apply zmem_In; exact Hxb).
+  destruct (n_kind n1); reflexivity.
 Qed.
 End Final.
 End ExtractPath.
